@@ -491,6 +491,9 @@ func (d *Driver) isolate(cur *curRec, code int) *ViolationRec {
 			if ec == ExitMem {
 				sig = "memory-blowup"
 				det = "heap grew beyond 1.5 GiB for a bounded-size input"
+			} else if strings.Contains(string(dump), "blocked=true") {
+				sig = "blocked"
+				det = "did not terminate and used no CPU time for 45 s when run alone: every goroutine of the case is blocked (a deadlock); goroutine dump attached"
 			}
 			return &ViolationRec{Property: d.Prop.ID, Tier: d.Tier, Seed: d.Seed, Case: cur.Case, Prog: cur.Prog, Doc: cur.Doc,
 				Sig: sig + ":" + hangSite(string(dump)), Detail: det, Stack: clip(string(dump), 6000)}
